@@ -140,6 +140,24 @@ CHECKS = {
         "(listed, not counted); q->0 equality, positivity and finiteness only through the replay grid",
    technique=TECH + "clang JSON AST -> Sigma-normal forms -> polynomial identities / z3; replay grid on call_Fq",
    design="DESIGN.md 6 C14"),
+ "C16": dict(engine="cvc+pyvc",
+   text="For each reparameterisation of the program family (contracts/c16.py: ellipsoid volume/eccentricity with an intermediate, "
+        "hollow_cylinder outer radius/wall fraction, parallelepiped aspect, sphere affine, cylinder with a validity region, lamellar "
+        "with a generated C body; thorough adds core_shell_sphere, fractal, barbell, pearl_necklace and further insert_after "
+        "placements) the kernel generated by core.reparameterize + generate.make_source is proved, from clang's AST of that source, "
+        "against the C01 postcondition with every model-function argument and the validity predicate replaced by T(P(s)): the base "
+        "parameters computed from the mesh point in the new parameters by an independent parser of the translation text "
+        "(intermediates in order, header constants read by preprocessing the same source).  Same nest proof as C01 (decode lemmas, "
+        "loop invariants, frame), so 'intermediates are recomputed at every mesh point' and 'view angles are read from the slot of "
+        "theta' are obligations; the generated source must be well-formed C and generated function signatures must be the base "
+        "table's parameters.",
+   note="each kernel proof is for all parameter values, meshes, q vectors and chunk boundaries of its program, but the programs are an "
+        "enumerated family, not all translations; model functions and C math functions uninterpreted, reals for doubles; translations "
+        "using ?: or casts are outside the spec parser; derive_table placement/limits/theta_offset are run-time contracts per program "
+        "(bounded, not counted); python kernel path by the shared C01 pykernel contracts",
+   technique=TECH + "clang JSON AST of the generated reparameterised kernel -> guarded-command VCs (loop invariants, decode lemmas) -> z3; "
+             "witnesses replayed on the compiled reparameterised and base models",
+   design="DESIGN.md 6 C16"),
  "C20": dict(engine="pyvc",
    text="convert_model and its 12 helpers are executed symbolically once per table entry and naming scheme with a finite-map "
         "input whose keys carry symbolic presence bits and symbolic values (state merging), so one run covers every subset "
